@@ -18,8 +18,10 @@
 (*    cannot be encoded / is not a str -- it is untouched; whatever        *)
 (*    happened, the directory of `local` contains afterwards exactly what  *)
 (*    it contained before plus (after success) `local`: no temporary file  *)
-(*    survives, a left-over `local + '.new'` of an earlier crash included  *)
-(*    (as soon as the call gets as far as writing).                        *)
+(*    of the call survives.  A left-over `local + '.new'` of an earlier    *)
+(*    crash never ends up in `local` and never makes the call fail;        *)
+(*    whether it is removed is not specified (the code removes it as soon  *)
+(*    as it gets as far as writing).                                       *)
 (*  * download_gunzip_lines creates its temporary file in the temporary    *)
 (*    directory only, removes it on every path (remote missing, not gzip,  *)
 (*    truncated, undecodable, disk full) and never touches anything else.  *)
@@ -29,8 +31,8 @@
 (*                                                                         *)
 (* MODEL.  Contents are classes: "absent", "old" (the file that was there),*)
 (* "empty" (zero bytes), "part" (a strict, non-empty part of the new       *)
-(* content), "new", "stale" (left-over of an earlier run), "dir" (`local`  *)
-(* is a directory: os.rename onto it fails by itself), "gz" (the download).*)
+(* content), "new", "dir" (`local` is a directory: os.rename onto it fails  *)
+(* by itself), "gz" (the download); stl = a left-over '.new' is there.     *)
 (* State = <<loc, tmpn, tmpd>> = `local`, the writer's temporary file in   *)
 (* the directory of local, the temporary file of the download; `ino`       *)
 (* says whether `local` is still the original inode, `held` what a reader  *)
@@ -57,10 +59,11 @@ VARIABLES apc,    \* control state
           loc, tmpn, tmpd,   \* directory contents (classes)
           ino,    \* "orig" | "fresh": inode behind `local`
           held,   \* what a reader that opened `local` before the call sees
+          stl,    \* a left-over `local + '.new'` of an earlier run is (still) there
           wi,     \* next item of `lines`
           aexc,   \* pending exception ("none" or its kind)
           apath   \* actions taken (for the emitted cases)
-avars == <<apc, ain, loc, tmpn, tmpd, ino, held, wi, aexc, apath>>
+avars == <<apc, ain, loc, tmpn, tmpd, stl, ino, held, wi, aexc, apath>>
 
 ApFaultKinds == {"none", "open", "write", "close", "rename", "mktemp", "fetchwrite"}
 ApOlds == {"absent", "old", "empty", "dir"}
@@ -93,7 +96,7 @@ ApInit ==
   /\ ain \in ApInputs
   /\ apc = IF Downloads(ain.entry) THEN "dl_mktemp" ELSE "rf_open"
   /\ loc = ain.old0
-  /\ tmpn = IF ain.stale THEN "stale" ELSE "absent"
+  /\ tmpn = "absent" /\ stl = ain.stale
   /\ tmpd = "absent"
   /\ ino = "orig" /\ held = ain.old0
   /\ wi = 1 /\ aexc = "none" /\ apath = <<>>
@@ -103,31 +106,32 @@ Step(name) == apath' = Append(apath, name)
 ------------------------------------------------------------------------------
 \* download_gunzip_lines
 
+\* (buffered / trace mode: an implementation may also get by without a temporary file -- tmpd stays absent)
 DlMkTemp ==
   /\ apc = "dl_mktemp" /\ Step("MkTemp")
   /\ IF ain.fault.k = "mktemp"
      THEN aexc' = "OSError" /\ apc' = "done" /\ UNCHANGED tmpd      \* mkstemp is outside the try block
-     ELSE tmpd' = "empty" /\ apc' = "dl_fetch" /\ UNCHANGED aexc
-  /\ UNCHANGED <<ain, loc, tmpn, ino, held, wi>>
+     ELSE tmpd' \in (IF ApBuffered THEN {"empty", "absent"} ELSE {"empty"}) /\ apc' = "dl_fetch" /\ UNCHANGED aexc
+  /\ UNCHANGED <<ain, loc, tmpn, stl, ino, held, wi>>
 
 DlFetch ==
   /\ apc = "dl_fetch" /\ Step("Fetch")
   /\ IF ain.remote = "missing" THEN aexc' = "URLError" /\ apc' = "dl_unlink" /\ UNCHANGED tmpd
      ELSE IF ain.fault.k = "fetchwrite" THEN aexc' = "OSError" /\ apc' = "dl_unlink" /\ tmpd' \in {"empty", "part"}
-     ELSE tmpd' = "gz" /\ apc' = "dl_gunzip" /\ UNCHANGED aexc
-  /\ UNCHANGED <<ain, loc, tmpn, ino, held, wi>>
+     ELSE tmpd' = (IF tmpd = "absent" THEN "absent" ELSE "gz") /\ apc' = "dl_gunzip" /\ UNCHANGED aexc
+  /\ UNCHANGED <<ain, loc, tmpn, stl, ino, held, wi>>
 
 DlGunzip ==
   /\ apc = "dl_gunzip" /\ Step("Gunzip")
   /\ aexc' = IF ain.remote = "bad" THEN "decode" ELSE "none"
   /\ apc' = "dl_unlink"
-  /\ UNCHANGED <<ain, loc, tmpn, tmpd, ino, held, wi>>
+  /\ UNCHANGED <<ain, loc, tmpn, tmpd, stl, ino, held, wi>>
 
 DlUnlink ==
   /\ apc = "dl_unlink" /\ Step("UnlinkTmp")
   /\ tmpd' = IF ApMode = "keepTmp" /\ aexc # "none" THEN tmpd ELSE "absent"
   /\ apc' = IF aexc # "none" \/ ain.entry = "download_gunzip_lines" THEN "done" ELSE "rf_open"
-  /\ UNCHANGED <<ain, loc, tmpn, ino, held, wi, aexc>>
+  /\ UNCHANGED <<ain, loc, tmpn, stl, ino, held, wi, aexc>>
 
 ------------------------------------------------------------------------------
 \* replace_file
@@ -137,14 +141,24 @@ AfterWrite(cur, last) ==
   IF ApBuffered THEN {cur, "part"} \cup (IF last THEN {NewC(ain)} ELSE {})
   ELSE IF NewC(ain) = "empty" THEN {"empty"} ELSE {"part"}
 
+\* The code writes to `local + '.new'`: a left-over file of that name is truncated and becomes the new file.  (Buffered /
+\* trace mode: an implementation may use another name and leave the left-over alone, or remove it at any of its steps.)
+StaleAfter == IF ApBuffered THEN {stl, FALSE} ELSE {FALSE}
 RfOpen ==
   /\ apc = "rf_open" /\ Step("Open")
-  /\ IF ain.fault.k = "open" THEN aexc' = "OSError" /\ apc' = "rf_cleanup" /\ UNCHANGED <<loc, tmpn, held>>
+  /\ IF ain.fault.k = "open" THEN aexc' = "OSError" /\ apc' = "rf_cleanup" /\ UNCHANGED <<loc, tmpn, held, stl>>
      ELSE /\ apc' = "rf_write" /\ UNCHANGED aexc
           /\ IF ApMode = "inPlace" /\ loc # "dir"
-             THEN loc' = "empty" /\ held' = (IF held = "absent" THEN held ELSE "empty") /\ UNCHANGED tmpn
-             ELSE tmpn' = "empty" /\ UNCHANGED <<loc, held>>      \* an existing '.new' is truncated
+             THEN loc' = "empty" /\ held' = (IF held = "absent" THEN held ELSE "empty") /\ UNCHANGED <<tmpn, stl>>
+             ELSE tmpn' = "empty" /\ stl' \in StaleAfter /\ UNCHANGED <<loc, held>>
   /\ UNCHANGED <<ain, tmpd, ino, wi>>
+
+\* (buffered / trace mode only) an implementation may consume the iterable of lines, or look at `local`, before it
+\* creates anything: the failure then comes without a temporary file ever having been there
+RfEarlyFailure ==
+  /\ ApBuffered /\ apc = "rf_open" /\ (ain.srcfail # 0 \/ loc = "dir") /\ Step("EarlyFailure")
+  /\ aexc' = (IF ain.srcfail # 0 THEN "source" ELSE "OSError") /\ apc' = "rf_cleanup"
+  /\ UNCHANGED <<ain, loc, tmpn, tmpd, stl, ino, held, wi>>
 
 RfWrite ==
   /\ apc = "rf_write"
@@ -161,13 +175,13 @@ RfWrite ==
           /\ IF ApMode = "inPlace" /\ loc # "dir"
              THEN loc' \in AfterWrite(loc, wi = ain.nw) /\ held' = (IF held = "absent" THEN held ELSE loc') /\ UNCHANGED tmpn
              ELSE tmpn' \in AfterWrite(tmpn, wi = ain.nw) /\ UNCHANGED <<loc, held>>
-  /\ UNCHANGED <<ain, tmpd, ino>>
+  /\ UNCHANGED <<ain, tmpd, stl, ino>>
 
 \* renameEarly: the rename happens before close() has flushed the data
 RfRenameEarly ==
   /\ ApMode = "renameEarly" /\ apc = "rf_close" /\ tmpn # "absent" /\ loc # "dir" /\ Step("Rename")
   /\ loc' = (IF tmpn = "part" /\ NewC(ain) = "empty" THEN "empty" ELSE tmpn) /\ tmpn' = "absent" /\ ino' = "fresh"
-  /\ UNCHANGED <<ain, tmpd, held, wi, aexc, apc>>
+  /\ UNCHANGED <<ain, tmpd, stl, held, wi, aexc, apc>>
 
 RfClose ==
   /\ apc = "rf_close" /\ (ApMode = "renameEarly" => tmpn = "absent" \/ loc = "dir") /\ Step("Close")
@@ -180,7 +194,7 @@ RfClose ==
              ELSE IF ApMode = "renameEarly" /\ loc # "dir"
              THEN loc' = NewC(ain) /\ UNCHANGED <<tmpn, held>> /\ apc' = "rf_cleanup"
              ELSE tmpn' = NewC(ain) /\ UNCHANGED <<loc, held>> /\ apc' = "rf_rename"
-  /\ UNCHANGED <<ain, tmpd, ino, wi>>
+  /\ UNCHANGED <<ain, tmpd, stl, ino, wi>>
 
 RfRename ==
   /\ apc = "rf_rename" /\ Step("Rename")
@@ -188,11 +202,11 @@ RfRename ==
      THEN aexc' = "OSError" /\ UNCHANGED <<loc, tmpn, ino>>
      ELSE /\ loc' = tmpn /\ tmpn' = "absent" /\ ino' = "fresh" /\ UNCHANGED aexc
   /\ apc' = "rf_cleanup"
-  /\ UNCHANGED <<ain, tmpd, held, wi>>
+  /\ UNCHANGED <<ain, tmpd, stl, held, wi>>
 
 RfCleanup ==
   /\ apc = "rf_cleanup" /\ Step("Cleanup")
-  /\ tmpn' = IF ApMode = "noCleanup" THEN tmpn ELSE "absent"
+  /\ IF ApMode = "noCleanup" THEN UNCHANGED <<tmpn, stl>> ELSE tmpn' = "absent" /\ stl' \in StaleAfter
   /\ apc' = "done"
   /\ UNCHANGED <<ain, loc, tmpd, ino, held, wi, aexc>>
 
@@ -202,10 +216,10 @@ ApDone ==
   /\ apc = "done"
   /\ apc' = "end"
   /\ (ApEmit => PrintT(<<"CASE", ToJson([in |-> ain, path |-> apath, out |-> Outcome, exc |-> aexc,
-                                       loc |-> loc, tmpn |-> tmpn, tmpd |-> tmpd, ino |-> ino, held |-> held])>>))
-  /\ UNCHANGED <<ain, loc, tmpn, tmpd, ino, held, wi, aexc, apath>>
+                                       loc |-> loc, tmpn |-> tmpn, tmpd |-> tmpd, stl |-> stl, ino |-> ino, held |-> held])>>))
+  /\ UNCHANGED <<ain, loc, tmpn, tmpd, stl, ino, held, wi, aexc, apath>>
 
-ApNext == DlMkTemp \/ DlFetch \/ DlGunzip \/ DlUnlink \/ RfOpen \/ RfWrite \/ RfRenameEarly \/ RfClose \/ RfRename
+ApNext == DlMkTemp \/ DlFetch \/ DlGunzip \/ DlUnlink \/ RfOpen \/ RfEarlyFailure \/ RfWrite \/ RfRenameEarly \/ RfClose \/ RfRename
           \/ RfCleanup \/ ApDone
 ApSpec == ApInit /\ [][ApNext]_avars
 ApLive == ApSpec /\ WF_avars(ApNext)
@@ -215,18 +229,18 @@ Finished == apc \in {"done", "end"}
 
 ApTypeOK ==
   /\ ain \in ApInputs
-  /\ loc \in ApOlds \cup {"new", "part"} /\ tmpn \in {"absent", "stale", "empty", "part", "new", "old"}
+  /\ loc \in ApOlds \cup {"new", "part"} /\ tmpn \in {"absent", "empty", "part", "new", "old"} /\ stl \in BOOLEAN
   /\ tmpd \in {"absent", "empty", "part", "gz"} /\ ino \in {"orig", "fresh"} /\ wi \in 1..(ApMaxW + 1)
 
 \* the path `local` names the old thing or the complete new content -- in EVERY state
 OldOrNew == loc \in {ain.old0, NewC(ain)}
 \* a reader that opened the old file keeps seeing the old file (or the complete new content)
 HeldIntact == held \in {ain.old0, NewC(ain)}
-\* no temporary file survives the call; a left-over '.new' of an earlier run is removed as soon as the
-\* call gets as far as writing (it survives a download that failed before)
-DownloadFails(i) == Downloads(i.entry) /\ (i.fault.k \in {"mktemp", "fetchwrite"} \/ i.remote # "ok")
-NoTempLeft == Finished => /\ tmpd = "absent"
-                          /\ tmpn # "absent" => tmpn = "stale" /\ (DownloadFails(ain) \/ ~Publishes(ain.entry))
+\* no temporary file of the call survives it (whether a left-over '.new' of an earlier run is removed is not specified:
+\* the code removes it as soon as it gets as far as writing)
+NoTempLeft == Finished => tmpn = "absent" /\ tmpd = "absent"
+\* ... and the code at hand does remove the left-over whenever replace_file is reached
+StaleRemovedWhenReached == Finished /\ stl /\ ~ApBuffered => ~Publishes(ain.entry) \/ (Downloads(ain.entry) /\ aexc # "none" /\ apath[Len(apath)] = "UnlinkTmp") \/ apath = <<"MkTemp">>
 \* the download never has more than its one temporary file, and only replace_file makes a '.new'
 TempDiscipline == (tmpd # "absent" => apc \in {"dl_fetch", "dl_gunzip", "dl_unlink"})
 \* a call that raised has not touched `local`: same inode, same bytes
@@ -234,7 +248,7 @@ RaisedUntouched == Finished /\ aexc # "none" => loc = ain.old0 /\ ino = "orig" /
 \* a call that returned has published (the download of lines alone publishes nothing)
 ReturnedPublished == Finished /\ aexc = "none" =>
                         IF Publishes(ain.entry) THEN loc = NewC(ain) /\ held = ain.old0
-                        ELSE loc = ain.old0 /\ ino = "orig" /\ tmpn = "absent"
+                        ELSE loc = ain.old0 /\ ino = "orig" /\ tmpn = "absent" /\ stl = ain.stale
 
 \* declaratively: which inputs must raise
 RfShould(i) == \/ i.fault.k \in {"open", "close", "rename"}
